@@ -1,5 +1,6 @@
 //! inject: src/debugger/call/mod.rs
-//! t7: src/debugger/debugee/dwarf/type.rs
+//! t7: src/debugger/debugee/dwarf/type.rs, src/debugger/variable/value/parser.rs
+//! t7-path: src/debugger/variable/value/serialize.rs
 //! t7-keep-std: src/debugger/debugee/dwarf/type.rs: ^pub type TypeCache
 //! requires: type_mk
 //
@@ -31,6 +32,10 @@ fn scalar_param(encoding: gimli::DwAte, size: u64) -> ComplexType {
 fn no_backtrace() -> std::backtrace::Backtrace {
     std::backtrace::Backtrace::disabled()
 }
+/// cut: the type name used only in error messages (ComplexType::identity recurses through the type graph)
+fn stub_identity(_this: &ComplexType, _typ: crate::debugger::debugee::dwarf::r#type::TypeId) -> crate::debugger::debugee::dwarf::r#type::TypeIdentity {
+    crate::debugger::debugee::dwarf::r#type::TypeIdentity::unknown()
+}
 fn empty_string(_args: std::fmt::Arguments<'_>) -> String {
     String::new()
 }
@@ -55,41 +60,86 @@ macro_rules! int_arg {
     }};
 }
 
-//@ harness: c16_literal_to_register
+//@ harness: c16_literal_to_register_signed
 //@ property: C16
 //@ obligation: H-C16-a
 //@ tier: quick
-//@ encodes: liter_to_arg_bin_repr (Int, Bool and Address literals), ComplexType::root
-//@ symbolic: the integer literal (any i64), the bool literal, the address literal (any usize); parameter base types i8..i64, u8..u64, signed/unsigned char, bool, pointer (instances, one call each)
-//@ bounds: loop-free; unwind 10 for byte copies
-//@ oracle: System V AMD64 psABI 3.2.3: an INTEGER-class argument travels in one general register and the callee reads its low `size` bytes: those bytes equal the literal truncated to the parameter's width (two's complement for signed); bool is 0/1; an address is passed unchanged; a literal of the wrong kind for the parameter (bool to an integer, integer to a pointer) is an error, never a register value
-//@ stubs: HashMap -> association list (T7, type.rs: ComplexType.types); Backtrace::capture; alloc::fmt::format -> empty (error messages)
+//@ encodes: liter_to_arg_bin_repr (Int literal to signed parameters), ComplexType::root
+//@ symbolic: the integer literal (any i64); parameter base types i8, i16, i32, i64, signed char (instances, one call each)
+//@ bounds: loop-free; unwind 4
+//@ oracle: System V AMD64 psABI 3.2.3: an INTEGER-class argument travels in one general register and the callee reads its low `size` bytes: those bytes equal the literal truncated to the parameter's width (two's complement)
+//@ stubs: HashMap -> association list (T7, type.rs: ComplexType.types); Backtrace::capture; alloc::fmt::format -> empty and ComplexType::identity -> unknown (both only build error messages)
 //@ outside: float, string, enum and aggregate arguments (refused by the debugger), more than six arguments (c16_arity), that f runs once (CPU)
 //@ timeout: 1500
+//@ mem_gb: 20
 #[kani::proof]
 #[kani::stub(std::backtrace::Backtrace::capture, no_backtrace)]
 #[kani::stub(alloc::fmt::format, empty_string)]
-#[kani::unwind(10)]
-fn c16_literal_to_register() {
+#[kani::stub(ComplexType::identity, stub_identity)]
+#[kani::unwind(4)]
+fn c16_literal_to_register_signed() {
     let v: i64 = kani::any();
     int_arg!(v, gimli::DW_ATE_signed, 1, i8);
     int_arg!(v, gimli::DW_ATE_signed, 2, i16);
     int_arg!(v, gimli::DW_ATE_signed, 4, i32);
     int_arg!(v, gimli::DW_ATE_signed, 8, i64);
+    int_arg!(v, gimli::DW_ATE_signed_char, 1, i8);
+    kani::cover!(v < 0, "negative literal");
+    kani::cover!(v > u32::MAX as i64, "literal wider than 32 bits");
+    kani::cover!(true, "BSV-END");
+}
+
+//@ harness: c16_literal_to_register_unsigned
+//@ property: C16
+//@ obligation: H-C16-a
+//@ tier: quick
+//@ encodes: liter_to_arg_bin_repr (Int literal to unsigned parameters)
+//@ symbolic: the integer literal (any i64); parameter base types u8, u16, u32, u64, unsigned char (instances)
+//@ bounds: as c16_literal_to_register_signed
+//@ oracle: as c16_literal_to_register_signed (truncation to the unsigned width)
+//@ stubs: as c16_literal_to_register_signed
+//@ timeout: 1500
+//@ mem_gb: 20
+#[kani::proof]
+#[kani::stub(std::backtrace::Backtrace::capture, no_backtrace)]
+#[kani::stub(alloc::fmt::format, empty_string)]
+#[kani::stub(ComplexType::identity, stub_identity)]
+#[kani::unwind(4)]
+fn c16_literal_to_register_unsigned() {
+    let v: i64 = kani::any();
     int_arg!(v, gimli::DW_ATE_unsigned, 1, u8);
     int_arg!(v, gimli::DW_ATE_unsigned, 2, u16);
     int_arg!(v, gimli::DW_ATE_unsigned, 4, u32);
     int_arg!(v, gimli::DW_ATE_unsigned, 8, u64);
-    int_arg!(v, gimli::DW_ATE_signed_char, 1, i8);
     int_arg!(v, gimli::DW_ATE_unsigned_char, 1, u8);
-    // bool
+    kani::cover!(v < 0, "negative literal to an unsigned parameter");
+    kani::cover!(true, "BSV-END");
+}
+
+//@ harness: c16_literal_kind_mismatch
+//@ property: C16
+//@ obligation: H-C16-a
+//@ tier: quick
+//@ encodes: liter_to_arg_bin_repr (Bool and Address literals; literal kind against parameter kind)
+//@ symbolic: the bool literal, the address literal (any usize), the integer literal (any i64)
+//@ bounds: loop-free; 6 calls
+//@ oracle: bool is passed as 0/1, an address unchanged; a literal of the wrong kind for the parameter (integer to bool or pointer, bool or address to integer) and an integer parameter of unsupported size are errors, never a register value: a call that cannot be made reports an error
+//@ stubs: as c16_literal_to_register_signed
+//@ timeout: 1500
+//@ mem_gb: 20
+#[kani::proof]
+#[kani::stub(std::backtrace::Backtrace::capture, no_backtrace)]
+#[kani::stub(alloc::fmt::format, empty_string)]
+#[kani::stub(ComplexType::identity, stub_identity)]
+#[kani::unwind(4)]
+fn c16_literal_kind_mismatch() {
+    let v: i64 = kani::any();
     let b: bool = kani::any();
     let ty = scalar_param(gimli::DW_ATE_boolean, 1);
     let lit = Literal::Bool(b);
     let r = liter_to_arg_bin_repr(1, &lit, &ty);
     bsv!(matches!(r, Ok((reg, RegType::General)) if reg == b as u64), "a bool argument is 0 or 1");
     std::mem::forget((r, lit));
-    // an integer literal is not a bool, a bool literal is not an integer
     let lit = Literal::Int(v);
     let r = liter_to_arg_bin_repr(1, &lit, &ty);
     bsv!(r.is_err(), "an integer literal is refused for a bool parameter");
@@ -99,7 +149,6 @@ fn c16_literal_to_register() {
     let r = liter_to_arg_bin_repr(2, &lit, &ty);
     bsv!(r.is_err(), "a bool literal is refused for an integer parameter");
     std::mem::forget((r, lit));
-    // an integer parameter of a size that does not exist is refused
     let lit = Literal::Address(kani::any());
     let r = liter_to_arg_bin_repr(2, &lit, &ty);
     bsv!(r.is_err(), "an address literal is refused for an integer parameter");
@@ -109,7 +158,6 @@ fn c16_literal_to_register() {
     let r = liter_to_arg_bin_repr(3, &lit, &ty);
     bsv!(r.is_err(), "an integer parameter of unsupported size is refused");
     std::mem::forget((r, lit, ty));
-    // pointer parameter
     let a: usize = kani::any();
     let ty = single_type(
         DieAddr::Unit(gimli::UnitOffset(0x20)),
@@ -123,7 +171,6 @@ fn c16_literal_to_register() {
     let r = liter_to_arg_bin_repr(4, &lit, &ty);
     bsv!(r.is_err(), "an integer literal is refused for a pointer parameter");
     std::mem::forget((r, lit, ty));
-    kani::cover!(v < 0, "negative literal");
-    kani::cover!(v > u32::MAX as i64, "literal wider than 32 bits");
+    kani::cover!(b, "true");
     kani::cover!(true, "BSV-END");
 }
